@@ -3365,6 +3365,14 @@ func (a *Association) createForwardTSN() *chunkForwardTSN {
 			break
 		}
 
+		// RFC 3758 Sec 3.2: the stream/sequence pairs report skipped *ordered*
+		// messages. An unordered chunk does not consume a stream sequence number
+		// (it carries the next unused one), so reporting it would make the peer
+		// skip an ordered message that has not been abandoned.
+		if c.unordered {
+			continue
+		}
+
 		ssn, ok := streamMap[c.streamIdentifier]
 		if !ok {
 			streamMap[c.streamIdentifier] = c.streamSequenceNumber
